@@ -8,6 +8,8 @@ package beacon
 //       aggregated survive the flood.
 
 import (
+	"bytes"
+	"sort"
 	"context"
 	"fmt"
 	"regexp"
@@ -275,6 +277,7 @@ func c12FloodRun(run *vfRun, c c12FloodCase) {
 	flooders := corrupted[len(corrupted)-c.Flooders:]
 	var smu sync.Mutex
 	var last c12CacheStats
+	liveCache := "cache hook never fired"
 	var hookFirings int64
 	nt.mu.Lock()
 	nt.onHook = func(name string, n *vfbNode, args []any) {
@@ -292,13 +295,26 @@ func c12FloodRun(run *vfRun, c c12FloodCase) {
 				s.rcvdMax = len(ids)
 			}
 		}
+		live := ""
 		for _, rc := range pc.rounds {
 			if _, ok := rc.sigs[flooders[0]]; ok {
 				s.sigsOfFlooder++
 			}
+			if rc.round == 1 && bytes.Equal(rc.prev, nt.group.GenesisSeed) {
+				var who []int
+				for idx := range rc.sigs {
+					who = append(who, idx)
+				}
+				sort.Ints(who)
+				live = fmt.Sprintf("round-1 cache holds partials of indices %v", who)
+			}
 		}
 		smu.Lock()
 		last = s
+		if live == "" {
+			live = "no round cache for (round 1, genesis seed)"
+		}
+		liveCache = live
 		smu.Unlock()
 	}
 	nt.mu.Unlock()
@@ -396,7 +412,7 @@ func c12FloodRun(run *vfRun, c c12FloodCase) {
 	}
 	if atomic.LoadInt64(&puts) == 0 {
 		run.Violation("C12/flood-evicted-honest-partials/"+map[bool]string{true: "chained", false: "unchained"}[nt.chained()],
-			fmt.Sprintf("own + %d honest partials for round 1 were cached before a flood of %d partials by %d member(s); the threshold-th honest partial arriving afterwards did not produce the beacon", honestBefore, c.L2, c.Flooders), info)
+			fmt.Sprintf("own + %d honest partials for round 1 were cached before a flood of %d partials by %d member(s); the threshold-th honest partial arriving afterwards did not produce the beacon; at the last inspection: %s; victim head %d", honestBefore, c.L2, c.Flooders, func() string { smu.Lock(); defer smu.Unlock(); return liveCache }(), nt.Head(v)), info)
 	} else {
 		run.Count("aggregated_after_flood", 1)
 	}
